@@ -13,7 +13,8 @@ value and the outcome of the rescore query on it.  Everything after that is mode
 * which hits are **fetched** before post-processing — the mechanism of the code, not the full
   ranking: per-segment top `k` on the score fast path, a shared heap of `k` otherwise, *every*
   accepted document when `explain` is set and the sort is not the score fast path
-  (`k = max(limit, candidate_size) + 1`);
+  (`k = max(limit, candidate_size, rescore.window_size) + 1`; `legacySearch` is the code before
+  /repo 089be57, whose `k` ignored the rescore window);
 * the cursor test, which sits in the same `accept` step that feeds the aggregation collectors;
 * `rescore_hits` (window, combination per mode, `None` = removed, re-sort of the first
   `window_size` of what is left);
@@ -301,8 +302,20 @@ structure Resp (S : Type) where
 
 def maxCandidate : Nat := 20000
 
-/-- `top_k` -/
+/-- `rescore.window_size` (0 without rescore) -/
+def windowOf (r : Req S) : Nat :=
+  match r.rescore with
+  | none => 0
+  | some rr => rr.window
+
+/-- `top_k` = `base_candidate + 1`, `base_candidate = max(candidate_size or limit, limit,
+rescore.window_size).min(MAX_CANDIDATE_SIZE)` (since /repo 089be57 the rescore window is part of
+the maximum) -/
 def topKOf (r : Req S) : Nat :=
+  if r.returnHits then (min (max (max (r.cand.getD r.limit) r.limit) (windowOf r)) maxCandidate) + 1 else 0
+
+/-- `top_k` before /repo 089be57: the rescore window did not count -/
+def topKOfLegacy (r : Req S) : Nat :=
   if r.returnHits then (min (max (r.cand.getD r.limit) r.limit) maxCandidate) + 1 else 0
 
 /-- the `accept` closure's cursor test: keys `≤` the cursor are skipped -/
@@ -366,6 +379,19 @@ def search (o : ScoreOps S) (r : Req S) (matched0 : List (Hit S)) : Resp S :=
   let p :=
     if r.returnHits then
       post o r (rescore o) (fetch lt (isFast r.plan) r.explain (topKOf r) r.nseg after)
+    else ([], none, none)
+  { hits := p.1, total := after.length + returned r.cursor, totalGroups := p.2.1, next := p.2.2,
+    aggTerms := aggTerms after, aggCount := aggCount r.aggField after, profile := r.profile }
+
+/-- the code before /repo 089be57 (fetch depth without the rescore window); kept for the
+`legacy_…` witnesses that document the repaired defect -/
+def legacySearch (o : ScoreOps S) (r : Req S) (matched0 : List (Hit S)) : Resp S :=
+  let lt := klt o r.plan
+  let matched := matched0.map (seen o r)
+  let after := afterCursor lt r.cursor matched
+  let p :=
+    if r.returnHits then
+      post o r (rescore o) (fetch lt (isFast r.plan) r.explain (topKOfLegacy r) r.nseg after)
     else ([], none, none)
   { hits := p.1, total := after.length + returned r.cursor, totalGroups := p.2.1, next := p.2.2,
     aggTerms := aggTerms after, aggCount := aggCount r.aggField after, profile := r.profile }
